@@ -9,7 +9,7 @@ use crate::{Case, Prop, Tier, Viol};
 
 pub struct C12;
 
-const WORDS: &[&str] = &["a", "bb", "ccc", "word", "hello", "x", "字", "字字", "longerword", "é"];
+const WORDS: &[&str] = &["a", "bb", "ccc", "word", "hello", "x", "字", "字字", "longerword", "é", "\u{301}", "\u{200b}"];
 
 /// one source line of a pre block as a list of atoms
 fn gen_line(r: &mut R) -> String {
@@ -177,7 +177,28 @@ impl Prop for C12 {
             while g.last().map(|l| l.is_empty()).unwrap_or(false) {
                 g.pop();
             }
-            if g != want {
+            // a line that holds only characters without width, ended by <br>: the block "has no width yet", so the <br> adds
+            // an empty line on top of ending the line (known finding C12-zero-width-line-before-br)
+            let zw_only = |l: &String| !l.trim().is_empty() && l.chars().all(|ch| ch == ' ' || cw(ch) == 0);
+            // positions of empty lines that directly follow a zero-width-only line; some subset of them is extra
+            let cand: Vec<usize> = (1..g.len()).filter(|i| g[*i].is_empty() && zw_only(&g[*i - 1])).collect();
+            let mut g2: Vec<String> = g.clone();
+            if cand.len() <= 10 {
+                for mask in 1u32..(1u32 << cand.len()) {
+                    let t: Vec<String> = g.iter().enumerate().filter(|(i, _)| !cand.iter().enumerate().any(|(k, c)| c == i && mask & (1 << k) != 0)).map(|(_, l)| l.clone()).collect();
+                    let mut t2 = t.clone();
+                    while t2.last().map(|l| l.is_empty()).unwrap_or(false) {
+                        t2.pop();
+                    }
+                    if t2 == want {
+                        g2 = t2;
+                        break;
+                    }
+                }
+            }
+            if g != want && g2 == want && String::from_utf8_lossy(&c.html).contains("<br>") {
+                out.push(known(format!("a <br> after a line holding only zero-width characters adds an empty line: got {:?}, expected {:?}", g, want), "C12-zero-width-line-before-br"));
+            } else if g != want {
                 out.push(viol(format!("every source line fits {avail} columns, but the block is not reproduced: got {:?}, expected {:?}", g, want)));
             }
             if c.cfg.deco == Deco::Rich {
